@@ -49,7 +49,29 @@ struct ProblemConfig
     bool with_positron{false};
     real_type lowest{0.001};  // lowest_electron_energy (P2)
     int track_order{0};  // TrackOrder enum value
-    real_type fixed_limit{0};  // PhysicsParamsOptions::fixed_step_limiter (P2)
+    real_type fixed_limit{0};  // PhysicsParamsOptions::fixed_step_limiter
+    // option sweep ("every configuration"): <= 0 keeps the problem's default
+    bool disable_integral_xs{false};
+    real_type linear_loss_limit{0};
+    real_type lowest_sweep{0};  // lowest_electron_energy (P3/P4/P5)
+    real_type min_range{0};
+    real_type msc_emin{0};  // lower end of P4's Urban MSC table [MeV] (default 0.1)
+    real_type msc_xs{0};  // P4's scaled MSC cross section xs*E^2 [MeV^2/cm] (default 5)
+
+    //! apply the swept options on top of a problem's own settings
+    template<class O>
+    void apply(O& o) const
+    {
+        o.disable_integral_xs = disable_integral_xs;
+        if (linear_loss_limit > 0)
+            o.linear_loss_limit = linear_loss_limit;
+        if (lowest_sweep > 0)
+            o.lowest_electron_energy = units::MevEnergy{lowest_sweep};
+        if (min_range > 0)
+            o.min_range = min_range;
+        if (fixed_limit > 0)
+            o.fixed_step_limiter = fixed_limit;
+    }
 };
 
 //! SimpleTestBase (P1): Compton-only, gammas/electrons, two boxes
@@ -152,6 +174,12 @@ class P2 : public test::MockTestBase
         o.secondary_stack_factor = cfg_.stack_factor;
         o.lowest_electron_energy = units::MevEnergy{cfg_.lowest};
         o.fixed_step_limiter = cfg_.fixed_limit;
+        {
+            real_type keep = o.lowest_electron_energy.value();
+            cfg_.apply(o);
+            if (!(cfg_.lowest_sweep > 0))
+                o.lowest_electron_energy = units::MevEnergy{keep};
+        }
         return o;
     }
 
@@ -181,6 +209,7 @@ class P3 : public P1
         constexpr double electron_mass = 0.5;
         PhysicsParams::Input input;
         input.options.secondary_stack_factor = cfg3_.stack_factor;
+        cfg3_.apply(input.options);
         auto const num_mat = this->material()->size();
 
         ImportProcess compton;
@@ -276,6 +305,39 @@ class P3 : public P1
     ProblemConfig cfg3_;
 };
 
+//! the Urban MSC data of P4 (also built by the unit harness to drive the limiter functors)
+inline std::shared_ptr<UrbanMscParams>
+make_urban_msc(ParticleParams const& particles,
+               MaterialParams const& materials,
+               ProblemConfig const& cfg_)
+{
+        std::vector<ImportMscModel> msc_models;
+        for (auto pdg : {pdg::electron(), pdg::positron()})
+        {
+            ImportMscModel m;
+            m.particle_pdg = pdg.get();
+            m.model_class = ImportModelClass::urban_msc;
+            m.xs_table.table_type = ImportTableType::msc_xs;
+            m.xs_table.x_units = ImportUnits::mev;
+            m.xs_table.y_units = ImportUnits::mev_2_per_cm;
+            for (double scale : {1.0, 1e-4})
+            {
+                ImportPhysicsVector v;
+                v.vector_type = ImportPhysicsVectorType::log;
+                v.x = {cfg_.msc_emin > 0 ? cfg_.msc_emin : 0.1, 1, 10, 100};
+                {
+                    double y0 = cfg_.msc_xs > 0 ? cfg_.msc_xs : 5;
+                    v.y = {y0 * scale, y0 * scale, y0 * scale, y0 * scale};
+                }
+                m.xs_table.physics_vectors.push_back(v);
+            }
+            msc_models.push_back(std::move(m));
+        }
+        auto msc = std::make_shared<UrbanMscParams>(
+            particles, materials, msc_models);
+        return msc;
+}
+
 //! P4: e-/e+ slowing down (mock continuous loss) in two-boxes with the REAL
 //! AlongStepGeneralLinearAction + UrbanMsc, MSC table on [0.1, 100] MeV so that MSC
 //! stops being applicable part-way through a track's life
@@ -353,6 +415,7 @@ class P4 : virtual public test::GlobalGeoTestBase, public test::OnlyCoreTestBase
         physics_inp.action_registry = this->action_reg().get();
         physics_inp.options.min_range = 1e-3 * units::centimeter;
         physics_inp.options.secondary_stack_factor = cfg_.stack_factor;
+        cfg_.apply(physics_inp.options);
         auto make_applic = [this](PDGNumber pdg) {
             Applicability result;
             result.particle = this->particle()->find(pdg);
@@ -393,27 +456,7 @@ class P4 : virtual public test::GlobalGeoTestBase, public test::OnlyCoreTestBase
     SPConstWentzelOKVI build_wentzel() override { return nullptr; }
     SPConstAction build_along_step() override
     {
-        std::vector<ImportMscModel> msc_models;
-        for (auto pdg : {pdg::electron(), pdg::positron()})
-        {
-            ImportMscModel m;
-            m.particle_pdg = pdg.get();
-            m.model_class = ImportModelClass::urban_msc;
-            m.xs_table.table_type = ImportTableType::msc_xs;
-            m.xs_table.x_units = ImportUnits::mev;
-            m.xs_table.y_units = ImportUnits::mev_2_per_cm;
-            for (double scale : {1.0, 1e-4})
-            {
-                ImportPhysicsVector v;
-                v.vector_type = ImportPhysicsVectorType::log;
-                v.x = {0.1, 1, 10, 100};
-                v.y = {5 * scale, 5 * scale, 5 * scale, 5 * scale};
-                m.xs_table.physics_vectors.push_back(v);
-            }
-            msc_models.push_back(std::move(m));
-        }
-        auto msc = std::make_shared<UrbanMscParams>(
-            *this->particle(), *this->material(), msc_models);
+        auto msc = make_urban_msc(*this->particle(), *this->material(), cfg_);
         auto& action_reg = *this->action_reg();
         auto result = std::make_shared<AlongStepGeneralLinearAction>(
             action_reg.next_id(), nullptr, msc);
@@ -444,6 +487,7 @@ class P5 : public P4
         physics_inp.action_registry = this->action_reg().get();
         physics_inp.options.min_range = 1e-3 * units::centimeter;
         physics_inp.options.secondary_stack_factor = cfg_.stack_factor;
+        cfg_.apply(physics_inp.options);
         auto make_applic = [this](PDGNumber pdg) {
             Applicability result;
             result.particle = this->particle()->find(pdg);
